@@ -63,14 +63,14 @@ Section Toolbox.
         match v with true => change (Z.eqb a b) with true | false => change (Z.eqb a b) with false end
     end.
   Ltac py_step :=
-    cbn -[Z.eqb Z.ltb Z.leb Z.add Z.sub Z.mul Z.pow Z.modulo Z.div Z.lxor Z.land Z.lor Z.shiftl Z.shiftr
+    cbv -[Z.eqb Z.ltb Z.leb Z.add Z.sub Z.mul Z.pow Z.modulo Z.div Z.lxor Z.land Z.lor Z.shiftl Z.shiftr
           Z.min Z.max Z.to_nat Z.of_nat len xor_zip py_slice py_splice rev app zeros be_int to_be
           bytes_ok bytes_of xor_assert nth];
     fold_consts.
   Ltac py := unfold run, call; repeat progress py_step.
   (* the same, also computing bytes([...]) of literals (kept folded in [py] for symbolic lists) *)
   Ltac py_step' :=
-    cbn -[Z.eqb Z.ltb Z.leb Z.add Z.sub Z.mul Z.pow Z.modulo Z.div Z.lxor Z.land Z.lor Z.shiftl Z.shiftr
+    cbv -[Z.eqb Z.ltb Z.leb Z.add Z.sub Z.mul Z.pow Z.modulo Z.div Z.lxor Z.land Z.lor Z.shiftl Z.shiftr
           Z.min Z.max Z.to_nat Z.of_nat len xor_zip py_slice py_splice rev app zeros be_int to_be
           xor_assert nth];
     fold_consts.
@@ -141,7 +141,7 @@ Section Toolbox.
     - vm_compute. reflexivity.
   Qed.
 
-  Theorem generate_prand_matches_source : length tokens = 6%nat ->
+  Theorem generate_prand_matches_source : List.length tokens = 6%nat ->
     run src_generate_prand_params src_generate_prand [] = VBytes (prand_of tokens).
   Proof.
     intros H. py. replace (len tokens =? 6) with true by (unfold len; lia). py.
